@@ -33,9 +33,14 @@ PROP = "X07"
 PLUGIN = "harness.pytest_trace_plugin_params"
 FOCUS = ["test_map_to_molecule.py", "test_apply_links.py", "test_gen_params.py", "test_apply_modifications.py", "test_ff_parser.py",
          "test_top_parser.py", "test_topology.py", "test_load_library.py", "test_gen_coords_logic.py", "test_generate_templates.py",
-         "test_residue_equivalence.py"]
-# tests excluded BY NAME (node id -> one-line reason)
+         "test_residue_equivalence.py", "test_build_system.py", "test_persistence.py", "test_nb_engine.py", "test_gen_coords.py", "test_random_walk.py"]
+# tests excluded BY NAME (node id -> one-line reason); none is needed on the current tree
 EXCLUDE = {}
+# tests of the traced files that fail on the unchanged tree in this environment (they stop before MapToMolecule: the stored sequence .json files use
+# the networkx "links" key, properties.jsonl names it as an environment issue); any OTHER failing test of the traced files means the tree was changed
+BASELINE_FAILING = {"polyply/tests/test_gen_params.py::test_gen_params[inpath1-None-seqf1-PS-ref_file1]",
+                    "polyply/tests/test_gen_params.py::test_gen_params[inpath3-None-seqf3-PPI-ref_file3]",
+                    "polyply/tests/test_gen_params.py::test_gen_params[inpath5-None-seqf5-test-ref_file5]"}
 KINDS = ("map", "links", "top", "pre")          # "bonded" records are judged with "pre" (TypeResolveTrace, bonded half)
 MAX_ATOMS = 400
 PROTEIN = ("GLY", "ALA", "CYS", "VAL", "LEU", "ILE", "MET", "PRO", "HYP", "ASN", "GLN", "ASP", "GLU", "THR", "SER", "LYS", "ARG", "HIS", "PHE",
@@ -224,6 +229,8 @@ def map_judge(case, v):
         return "rejected", "molecule after MapToMolecule: " + one("base")
     if one("edges") != "ok":
         return "rejected", "atom edges after MapToMolecule: " + one("edges")
+    if one("excl") != "ok":
+        return "rejected", "exclusion distance / exclude tags after MapToMolecule: " + one("excl")
     if case["judge_final"]:
         if cs["raised"]:
             return "rejected", "the pipeline raised %s at %s in stage %s (%s); the specification completes" % (exc["type"], exc["site"], exc["stage"], exc["msg"][:160])
@@ -428,7 +435,10 @@ def run(tier):
     ck = c.Check(PROP, tier, level="trace_validation")
     repo = repo_root()
     tests_dir = Path("polyply") / "tests"
-    focus = [str(tests_dir / f) for f in FOCUS if (repo / tests_dir / f).exists()]
+    focus = sorted(str(tests_dir / f) for f in FOCUS if (repo / tests_dir / f).exists())      # the order pytest itself uses for the directory
+    if c.seed():          # nothing here is random; the seed permutes the order in which the test files run (module-level state, caches)
+        import random
+        random.Random(c.seed()).shuffle(focus)
     ck.rule = ("I->S only: the repository's own test suite (quick: %s; thorough: the whole suite) is run unmodified under pytest with a recording plugin; every "
                "MapToMolecule.run_molecule call (with the rest of the gen_params pipeline on the same molecule) is a record for FFTraceX07 (FFMap: PBase, edges, PFinal), "
                "every ApplyLinks.run_molecule call a record for LinksTrace, every Topology.from_gmx_topfile call a record for TopReadTrace, every "
@@ -476,7 +486,7 @@ def _report(ck, items):
                 ck.traces += 1
                 ck.count(kind + ":" + str(it.head.get("h")), len(it.nodeids))
             elif it.status == "rejected":
-                what = WHAT[kind] if it.sub != "bonded" else "Topology.gen_bonded_interactions"
+                what = "Topology.gen_bonded_interactions" if it.sub == "bonded" else "top_parser.read_topology on a list of lines" if it.head.get("sub") == "lines" else WHAT[kind]
                 ck.violation({"kind": kind, "sub": it.sub, "nodeids": it.nodeids[:20], "case": it.case, "why": it.why, "detail": getattr(it, "detail", None),
                               "verdicts": getattr(it, "verdicts", None)},
                              what="test %s: record of %s rejected - %s" % (it.where(), what, it.why))
@@ -502,6 +512,7 @@ def _evidence(ck, tests, recs, items, perr):
                      "outside_the_modelled_domain": sum(1 for it in its if it.status == "outside"),
                      "outside_calls": sum(len(it.nodeids) for it in its if it.status == "outside"),
                      "outside_reasons (calls)": reasons,
+                     "outside_tests": [[it.nodeids[0].replace("polyply/tests/", "")[:110], it.why[:90]] for it in its if it.status == "outside"][:16],
                      "unprojectable": [it.why for it in its if it.status == "unprojectable"][:5]}
     m = items["map"]
     per["map"]["with_final_molecule_judged"] = sum(1 for it in m if it.case and it.case["judge_final"] and it.status == "accepted")
@@ -510,7 +521,9 @@ def _evidence(ck, tests, recs, items, perr):
     per["links"]["attempts"] = sum(len(it.case["obs"]["calls"]) for it in items["links"] if it.status == "accepted")
     per["links"]["applied"] = sum(1 for it in items["links"] if it.status == "accepted" for x in it.case["obs"]["calls"] if x["out"] == "applied")
     per["top"]["abstract_lines"] = sum(len(f["lines"]) for it in items["top"] if it.status == "accepted" for f in it.case["files"])
-    per["top"]["files"] = sorted({it.head.get("path", "") for it in items["top"] if it.status == "accepted"})[:12]
+    per["top"]["files"] = sorted({it.head.get("path", "") for it in items["top"] if it.status == "accepted" and it.head.get("sub") != "lines"})[:12]
+    per["top"]["line_lists_read_into_a_fresh_topology"] = sum(1 for it in items["top"] if it.status == "accepted" and it.head.get("sub") == "lines")
+    per["top"]["aborted_reads (#error / missing include / undeclared molecule)"] = sum(1 for it in items["top"] if it.status == "accepted" and it.case["obs"]["abort"])
     per["pre"]["bonded_half_only"] = sum(1 for it in items["pre"] if it.status == "accepted" and it.sub == "bonded")
     per["pre"]["missing_type_reported"] = sum(1 for it in items["pre"] if it.status == "accepted" and it.case["obs"]["err"])
     ck.extra["records"] = per
@@ -606,10 +619,10 @@ def _binding_demo(ck, items):
                "no accepted record was available for the binding demonstration of %s" % missing)
 
 
-# minimum yield, from the numbers measured on the unchanged tree (distinct accepted records; quick: map 15 of 20 (5 with the final molecule), links 5
-# with 106 applied links, top 3 (19 calls), pre 17 of 18; the whole suite adds one topology file and three preprocessing records)
-MINIMUM = {"quick": {"tests": 150, "map": 12, "map_final": 4, "links": 4, "applied": 60, "top": 3, "pre": 13},
-           "thorough": {"tests": 450, "map": 12, "map_final": 4, "links": 4, "applied": 60, "top": 3, "pre": 15}}
+# minimum yield, from the numbers measured on the unchanged tree (distinct accepted records: map 15 of 20, 5 of them with the final molecule; links 5
+# with 106 applied links; top 53 of 60; pre 20 of 21 - the same in both tiers, the whole suite only repeats the inputs of the focus files)
+MINIMUM = {"quick": {"tests": 250, "map": 12, "map_final": 4, "links": 4, "applied": 60, "top": 40, "pre": 15},
+           "thorough": {"tests": 450, "map": 12, "map_final": 4, "links": 4, "applied": 60, "top": 40, "pre": 15}}
 
 
 def _vacuity(ck, tests, items, focus, perr):
@@ -627,12 +640,14 @@ def _vacuity(ck, tests, items, focus, perr):
             (sum(1 for it in acc["links"] for x in it.case["obs"]["calls"] if x["out"] == "applied") >= lo["applied"], "fewer than %d applied links in the accepted records" % lo["applied"]),
             (len(acc["top"]) >= lo["top"], "fewer than %d accepted topology-reading records (%d)" % (lo["top"], len(acc["top"]))),
             (len(acc["pre"]) >= lo["pre"], "fewer than %d accepted preprocessing records (%d)" % (lo["pre"], len(acc["pre"])))]
-    # the baseline has failing tests in the traced files (sequence .json files with the networkx 'links' key): only failures beyond those lower the yield
+    # the baseline has three failing tests in the traced files; failures beyond those are the doing of a changed tree (or, with VERIF_SEED != 0, of the
+    # permuted file order: a few tests of the suite depend on the order) and lower the yield - noted, not a machinery failure
+    unexpected = [f for f in failed_focus if f not in BASELINE_FAILING]
     for ok, msg in need:
         if ok:
             continue
-        if ck.violations or len(failed_focus) > 12:
-            ck.note("yield below the usual minimum (%s) while %d tests of the traced files fail / records were rejected" % (msg, len(failed_focus)))
+        if ck.violations or unexpected:
+            ck.note("yield below the usual minimum (%s) while %d tests of the traced files fail beyond the baseline, e.g. %s" % (msg, len(unexpected), unexpected[:2]))
         else:
             ck.require(False, "vacuous: " + msg)
 
